@@ -56,7 +56,12 @@ FileAt(tree, p) == CHOOSE f \in ToSet(tree) : f.path = p
 InConfig(p) == Len(p) > 1 /\ p[1] = "config"          \* the pre-bundled configuration directory of the distribution
 
 Show(fin, n) == IF n \in DOMAIN fin THEN fin[n].v ELSE <<"">>     \* an undefined variable renders as nothing
-Seg(inp, cid, fin) == [t |-> cid, vals |-> [i \in DOMAIN inp.tpl[cid] |-> Show(fin, inp.tpl[cid][i])]]
+\* template files whose text renders to nothing whatever the variables are (one conditional block on a name nobody defines, a
+\* loop over an empty default list, an intentionally empty file): they are template files like the others - their rendering is
+\* an empty line (t = "")
+Blank == {"E1", "E2", "E3"}
+Seg(inp, cid, fin) == IF cid \in Blank THEN [t |-> "", vals |-> <<>>]
+                      ELSE [t |-> cid, vals |-> [i \in DOMAIN inp.tpl[cid] |-> Show(fin, inp.tpl[cid][i])]]
 Raw(cid) == [t |-> cid, vals |-> <<>>]
 
 -----------------------------------------------------------------------------
@@ -252,7 +257,9 @@ ApplyFiles(inp, fs, files, fin) ==
     ELSE LET f == Head(files)
              old == IF f.path \in DOMAIN fs /\ Variant # "overwrite" THEN fs[f.path] ELSE <<>>
              new == IF f.kind = "text" THEN Append(old, Seg(inp, f.cid, fin)) ELSE <<Raw(f.cid)>>
-         IN  ApplyFiles(inp, Put(fs, f.path, new), Tail(files), fin)
+         IN  IF Variant = "skip_blank" /\ f.kind = "text" /\ f.cid \in Blank    \* seeded fault: nothing rendered, file not touched
+             THEN ApplyFiles(inp, fs, Tail(files), fin)
+             ELSE ApplyFiles(inp, Put(fs, f.path, new), Tail(files), fin)
 RECURSIVE ApplyBases(_, _, _, _)
 ApplyBases(inp, fs, paths, fin) ==
     IF paths = <<>> THEN fs
